@@ -1320,6 +1320,12 @@ def gen_ldap(rng, tier):
                         any(x.swapcase() != x for x in v) and rng.random() < 0.5:
                     o2[k] = [x.swapcase() for x in v]
                     changed += 1
+            for k in sorted(o2):
+                v = o2[k]
+                if not k.startswith('_') and rng.random() < 0.15 and (
+                        (isinstance(v, list) and v) or (isinstance(v, str) and v)):
+                    o2[k] = [] if isinstance(v, list) else None      # the update clears the field
+                    changed += 1
             if changed:
                 items.append({'k': 'ldapupd', 'cls': cls, 'o': o, 'o2': o2, 'wf': True})
             else:
@@ -1491,6 +1497,14 @@ def run_ldap(items, run, mon):
                 mon.inj('ldap-dn:' + cls, site, dn, want)
                 mon.nt += 1
             continue
+        def _unordered0(x):
+            if isinstance(x, dict):
+                return {k_: _unordered0(v_) for k_, v_ in x.items()}
+            if isinstance(x, list) and not any(isinstance(v_, (dict, list)) for v_ in x):
+                return sorted(x, key=repr)
+            if isinstance(x, list):
+                return sorted((_unordered0(v_) for v_ in x), key=repr)
+            return x
         if it['k'] == 'ldapupd':
             # the update path of the admin objects: Admin.update diffs the stored entry against the new one
             # (`_diff_entries`) and sends the modifications; applied to the stored entry as the directory would
@@ -1500,19 +1514,47 @@ def run_ldap(items, run, mon):
             run.tags.add('ldap-update:' + cls)
             try:
                 stored = _ldap._remove_empty(a_.to_entry(copy.deepcopy(it['o'])))      # pylint: disable=protected-access
-                new_e = _ldap._remove_empty(a_.to_entry(copy.deepcopy(it['o2'])))      # pylint: disable=protected-access
-                diff = _ldap._diff_entries(stored, new_e)                               # pylint: disable=protected-access
-                for attr, mods in diff.items():
-                    for op_, vals in mods:
-                        if op_ == ldap3.MODIFY_REPLACE:
-                            stored[attr] = list(vals)
-                        elif op_ == ldap3.MODIFY_ADD:
-                            stored[attr] = list(stored.get(attr, [])) + list(vals)
-                        elif op_ == ldap3.MODIFY_DELETE:
-                            stored.pop(attr, None)
+                stored0 = copy.deepcopy(stored)
+
+                class _Dir(_ldap.Admin):
+                    """The real Admin.update over one stored entry: `get` returns the requested attributes (every
+                    option variant of a requested name, as a directory does), `modify` applies the changes."""
+                    def get(self, dn, query, attrs, paged_search=True, dirty=False):      # pylint: disable=arguments-differ
+                        want = set(attrs)
+                        return {k_: list(v_) for k_, v_ in stored.items() if k_.split(';', 1)[0] in want}
+
+                    def modify(self, dn, changes):
+                        for attr, mods in (changes or {}).items():
+                            for op_, vals in mods:
+                                if op_ == ldap3.MODIFY_REPLACE:
+                                    stored[attr] = list(vals)
+                                elif op_ == ldap3.MODIFY_ADD:
+                                    stored[attr] = list(stored.get(attr, [])) + list(vals)
+                                elif op_ == ldap3.MODIFY_DELETE:
+                                    stored.pop(attr, None)
+                # LdapObject.update: admin.update(dn, to_entry(attrs)) - the new entry carries [] for what is cleared
+                _Dir('ldap://x', 'dc=x').update('dn', a_.to_entry(copy.deepcopy(it['o2'])))
                 back = a_.from_entry(copy.deepcopy(stored))
             except Exception as exc:  # pylint: disable=broad-except
                 mon.hit('ldap-update', LCLS[cls] + '.update', 'update of %r to %r raised %r' % (it['o'], it['o2'], exc))
+                continue
+            # oracle of the update: every attribute NAMED in the new entry (with whatever options) takes the new
+            # entry's values, everything else stays - computed here on the entries, decoded by the real from_entry
+            try:
+                new_e = a_.to_entry(copy.deepcopy(it['o2']))
+                named = {k_.split(';', 1)[0] for k_ in new_e}
+                want_e = {k_: list(v_) for k_, v_ in stored0.items() if k_.split(';', 1)[0] not in named}
+                want_e.update({k_: [x_ for x_ in v_ if x_ is not None] for k_, v_ in new_e.items()
+                               if [x_ for x_ in v_ if x_ is not None]})
+                want = a_.from_entry(copy.deepcopy(want_e))
+            except Exception:  # pylint: disable=broad-except
+                want = None
+            if want is not None and canon(_unordered0(want)) != canon(_unordered0(back)):
+                diff = sorted(k_ for k_ in set(want) | set(back)
+                              if canon(_unordered0(want.get(k_))) != canon(_unordered0(back.get(k_))))
+                mon.hit('ldap-update', LCLS[cls] + '.update',
+                        'created %r, updated to %r: fields %r read %r, the update should leave %r' % (
+                            it['o'], it['o2'], diff, {k_: back.get(k_) for k_ in diff}, {k_: want.get(k_) for k_ in diff}))
                 continue
             def _unordered(x):
                 # the values of a multi-valued attribute are a SET in the directory: an update that only permutes
